@@ -161,10 +161,11 @@ CTOR_OF = {"from_ptr": "Ptr", "from_rc_ref_cell": "RcRefCell", "from_ptr_rw_lock
 _todyn_cache = {}
 
 
-def todyn_facts(features):
-    """MIR facts of the downstream expansion witness (witness/todyn), built against /repo with the given features OF THE WITNESS CRATE."""
+def todyn_facts(features, rrtk_dep=None):
+    """MIR facts of the downstream expansion witness (witness/todyn), built against /repo with the given features OF THE WITNESS CRATE;
+    rrtk_dep optionally replaces the dependency line (to build against another feature set of rrtk itself)."""
     import os, shutil, tempfile, program
-    key = tuple(features)
+    key = (tuple(features), rrtk_dep)
     if key not in _todyn_cache:
         work = tempfile.mkdtemp(prefix="todyn-", dir=program.tmp_root())
         dst = os.path.join(work, "todyn")
@@ -172,13 +173,20 @@ def todyn_facts(features):
         lock = os.path.join(program.REPO, "Cargo.lock")
         if os.path.exists(lock):
             shutil.copy(lock, os.path.join(dst, "Cargo.lock"))
+        if rrtk_dep:
+            ct = open(os.path.join(dst, "Cargo.toml")).read()
+            assert 'rrtk = { path = "/repo" }' in ct
+            open(os.path.join(dst, "Cargo.toml"), "w").write(ct.replace('rrtk = { path = "/repo" }', rrtk_dep))
         res, p = program.run_driver(dst, (["--features", ",".join(features)] if features else []), crates=["rrtk_todyn_witness"])
         shutil.rmtree(work, ignore_errors=True)
         _todyn_cache[key] = (res.get("rrtk_todyn_witness"), p.stderr[-1500:])
     return _todyn_cache[key]
 
 
-def to_dyn_expansion(chk, prog):
+NOSTD_DEP = 'rrtk = { path = "/repo", default-features = false, features = ["alloc", "libm"] }'
+
+
+def to_dyn_expansion(chk, prog, nostd_prog=None):
     """D: what to_dyn! expands to in a calling crate.  For every variant the macro family lists, every path of the expansion
     taken by that variant ends in the constructor of the SAME variant applied to the variant's own payload (through pointer
     casts only: same object), and no listed variant can reach a panic; identical whether or not the calling crate declares /
@@ -192,11 +200,17 @@ def to_dyn_expansion(chk, prog):
     if len(listed) < 3:
         chk.violation("floor", "C17.to_dyn-listed", "to_dyn! lists %s: expected at least Ptr, RcRefCell, PtrRwLock" % listed)
     tables = {}
-    for feats in ((), ("alloc", "std")):
-        tag = "caller-features=" + (",".join(feats) or "none")
+    all_listed = listed
+    builds = [((), None, "caller-features=none"), (("alloc", "std"), None, "caller-features=alloc,std")]
+    if nostd_prog is not None:
+        builds.append(((), NOSTD_DEP, "rrtk-without-std(alloc,libm)"))
+    for feats, dep, tag in builds:
         key = "D:to_dyn-expansion:" + tag
+        if dep:
+            variants = variants_of(nostd_prog, "ReferenceUnsafe")
+        listed = [v for v in all_listed if v in variants]
         chk.obligation(key, "to_dyn! expansion in a downstream crate (%s): listed variants %s" % (tag, listed))
-        facts, err = todyn_facts(feats)
+        facts, err = todyn_facts(feats, dep)
         if facts is None:
             chk.violation("C17.D", key + ":build", "the downstream witness using to_dyn! does not compile (%s): %s" % (tag, err[-600:]))
             continue
@@ -330,8 +344,9 @@ def to_dyn_expansion(chk, prog):
             if "ctor:" + v not in table.get(v, ()):
                 chk.violation("C17.D", "%s:unconverted:%s" % (key, v), "to_dyn! expansion (%s): no constructor call is reached by listed variant %s" % (tag, v))
                 ok = False
-        tables[tag] = {v: sorted(x) for v, x in table.items()}
-        chk.sample({"to_dyn": tag, "table": tables[tag]}, cap=30)
+        if not dep:
+            tables[tag] = {v: sorted(x) for v, x in table.items()}
+        chk.sample({"to_dyn": tag, "table": {v: sorted(x) for v, x in table.items()}}, cap=30)
         if ok:
             chk.discharge(key)
     if len(tables) == 2:
@@ -367,7 +382,8 @@ def run(chk):
     finally:
         M.LOCAL_MODELS_ENABLED = True
     macro_hygiene(chk, prog)
-    to_dyn_expansion(chk, prog)
+    to_dyn_expansion(chk, prog, load_config("K2"))
+    chk.configs.append("K2")
     if chk.tier == "thorough":
         # variant sets of the other configurations: tables must hold for whichever variants exist there
         for cfg in ("K2", "K3"):
